@@ -110,6 +110,18 @@ func specResult(root *model.Node, op string) string {
 			fmt.Fprintf(&sb, "%s|%s|%s|%d|%s|%v\n", r.Row, r.Branch, r.Name, r.Level, r.Path, r.HasChild)
 		}
 		return sb.String()
+	case "walkfail", "iterbreak":
+		// a walk whose callback fails (iterator: whose consumer breaks) at visit size/2
+		rows := model.Rows(f, model.DefaultBranch)
+		k := len(rows) / 2
+		var sb strings.Builder
+		for _, r := range rows[:k+1] {
+			sb.WriteString(r.Row + "\n")
+		}
+		if op == "walkfail" {
+			sb.WriteString("returned the callback's error")
+		}
+		return sb.String()
 	case "json":
 		return f.String()
 	case "dryrun":
@@ -219,6 +231,51 @@ func (t *liveTree) runOp(op, tmp string) string {
 			return "ERR:" + errStr(o.Err) + fmt.Sprint(o.Panic)
 		}
 		return sb.String()
+	case "walkfail":
+		k := t.shape.Size() / 2
+		sentinel := fmt.Errorf("sentinel")
+		var sb strings.Builder
+		n := 0
+		o := Guard(func() error {
+			return gtree.WalkFromRoot(t.root, func(wn *gtree.WalkerNode) error {
+				sb.WriteString(wn.Row() + "\n")
+				n++
+				if n == k+1 {
+					return sentinel
+				}
+				return nil
+			})
+		})
+		if o.Panic != nil {
+			return "PANIC"
+		}
+		if o.Err == sentinel {
+			sb.WriteString("returned the callback's error")
+		} else {
+			sb.WriteString("ERR:" + errStr(o.Err))
+		}
+		return sb.String()
+	case "iterbreak":
+		k := t.shape.Size() / 2
+		var sb strings.Builder
+		n := 0
+		o := Guard(func() error {
+			for wn, err := range gtree.WalkIterFromRoot(t.root) {
+				if err != nil {
+					return err
+				}
+				sb.WriteString(wn.Row() + "\n")
+				n++
+				if n == k+1 {
+					break
+				}
+			}
+			return nil
+		})
+		if o.Panic != nil || o.Err != nil {
+			return "ERR:" + errStr(o.Err) + fmt.Sprint(o.Panic)
+		}
+		return sb.String()
 	case "json":
 		w := mon.NewRecWriter()
 		o := Guard(func() error { return gtree.OutputFromRoot(w, t.root, gtree.WithEncodeJSON()) })
@@ -296,6 +353,7 @@ func runC13(c *Ctx) bool {
 	}{
 		{[]string{"text"}, L},
 		{[]string{"walk", "iter", "json", "text.b6", "dryrun"}, L - 1},
+		{[]string{"walkfail", "walk", "iterbreak", "iter"}, L - 2}, // an aborted walk, then further walks
 		{[]string{"mkdir", "verify"}, L - 2},
 	}
 	for _, ps := range passes {
@@ -367,7 +425,7 @@ func runC13(c *Ctx) bool {
 	return runC13Concurrent(c)
 }
 
-var c13Ops = []string{"text", "text.b3", "text.b6", "walk", "iter", "json", "dryrun", "mkdir", "verify"}
+var c13Ops = []string{"text", "text.b3", "text.b6", "walk", "iter", "json", "walkfail", "iterbreak", "dryrun", "mkdir", "verify"}
 var c13Names = []string{"a", "b", "c", "x.gz", "d e", "日本"}
 
 func randHistory(r *gen.Rand, n, maxTrees int) []string {
@@ -390,7 +448,7 @@ func randHistory(r *gen.Rand, n, maxTrees int) []string {
 		default:
 			ops := c13Ops
 			if r.Chance(3, 4) {
-				ops = c13Ops[:7]
+				ops = c13Ops[:9]
 			}
 			h = append(h, "O"+strconv.Itoa(r.Intn(trees))+":"+ops[r.Intn(len(ops))])
 		}
@@ -536,7 +594,7 @@ func evalC13Concurrent(c *Ctx, cs *Case) {
 	if !c.Quick() {
 		steps = 150
 	}
-	opsConc := []string{"text", "text.b3", "text.b6", "walk", "iter", "json", "mkdir", "verify"} // no dry-run: it prints to the process-wide color.Output
+	opsConc := []string{"text", "text.b3", "text.b6", "walk", "iter", "json", "walkfail", "iterbreak", "mkdir", "verify"} // no dry-run: it prints to the process-wide color.Output
 	for g := 0; g < G; g++ {
 		wg.Add(1)
 		go func(g int) {
